@@ -42,7 +42,7 @@ func init() {
 	})
 }
 
-var c14Targets = []string{"open-rw", "open-ro", "scan", "range", "point", "count", "insert", "update", "delete", "commit", "refresh", "changes", "vacuum", "open-rw", "scan", "range"}
+var c14Targets = []string{"open-rw", "open-ro", "scan", "range", "point", "count", "insert", "update", "delete", "commit", "refresh", "changes", "vacuum", "open-rw", "insert-twin", "range"}
 
 type c14outcome struct {
 	err  error
@@ -122,6 +122,10 @@ func runC14(c *Case) {
 	}
 	lo, hi := int64(r.Intn(nrows)), int64(nrows+r.Intn(nrows))
 	pk := int64(r.Intn(nrows)) * 2
+	var twins []int64
+	for i := 0; i < 6; i++ {
+		twins = append(twins, int64(r.Intn(nrows))*2)
+	}
 	desc := map[string]interface{}{"target": target, "entries_per_node": epn, "rows": nrows, "unmerged_versions": unmerged}
 	fail := func(sig, msg string) { c.Violate("C14:"+target+":"+sig, msg, desc) }
 
@@ -172,6 +176,19 @@ func runC14(c *Case) {
 				o.rows, o.err = s.conn.Rows("select count(*), min(k), max(k) from " + s.t)
 			case "insert":
 				o.err = s.conn.Exec("insert into "+s.t+" values (?,?,?)", int64(1000001), "new", nil)
+			case "insert-twin":
+				// the REAL of the same value as a stored INTEGER key: must be refused as a key conflict
+				for _, n := range twins {
+					err := s.conn.Exec("insert into "+s.t+" values (?,?,?)", float64(n), "twin", nil)
+					if errClass(err) != "constraint-pk" {
+						o.err = fmt.Errorf("insert of %v.0: %v", n, err)
+						if err == nil {
+							o.err = nil
+							o.rows = append(o.rows, fmt.Sprintf("accepted twin %d", n))
+						}
+						break
+					}
+				}
 			case "update":
 				o.err = s.conn.Exec("update "+s.t+" set a='upd' where k >= ? and k < ?", lo, lo+6)
 			case "delete":
@@ -397,6 +414,64 @@ func runC14(c *Case) {
 						fail("acknowledged-write-not-visible-locally:"+m.name, fmt.Sprintf("%s: the write reported success but the connection's own view differs: %s", where, firstDiff(refPost, d)))
 					}
 				}
+			}
+			// same connection, still no refresh: it goes on writing; what it publishes must be complete
+			if c.Res.Status != "violated" && !strings.HasPrefix(target, "open") && target != "refresh" && r.Intn(3) == 0 {
+				s.conn.SetWriteTime(700)
+				e1 := s.conn.Exec("insert into "+s.t+" values (?,?,?)", int64(4000001), "follow-up", nil)
+				s.conn.SetWriteTime(701)
+				// also into a part of the tree far from the first one, and over a key deleted earlier
+				e2 := s.conn.Exec("insert into "+s.t+" values (?,?,?)", int64(-4000001), "follow-up", nil)
+				s.conn.SetWriteTime(702)
+				s.conn.Exec("insert into "+s.t+" values (?,?,?)", pk, "re-insert", nil)
+				c.Count("follow_up_writes_without_refresh", 1)
+				if e1 != nil || e2 != nil {
+					fail("follow-up-write-fails:"+m.name, fmt.Sprintf("%s: after the fault cleared the same connection cannot write: %v %v", where, e1, e2))
+				} else {
+					fd2, err := postDump(s, "afterfollowup")
+					if err != nil {
+						fail("follow-up-commit-unreadable:"+m.name, fmt.Sprintf("%s: after a follow-up write on the same connection a new connection cannot read the table: %v", where, err))
+					} else {
+						have := map[string]bool{}
+						for _, row := range fd2 {
+							have[row] = true
+						}
+						// everything committed before is still there (apart from what the target itself changed)
+						base0 := fd
+						missing := ""
+						for _, row := range base0 {
+							if !have[row] && !strings.HasPrefix(row, fmt.Sprintf("i:%d|", pk)) {
+								missing = row
+								break
+							}
+						}
+						if missing != "" {
+							fail("follow-up-commit-lost-rows:"+m.name, fmt.Sprintf("%s: after a follow-up write on the same connection a new connection no longer sees %q", where, missing))
+						}
+					}
+					// the version this connection has just published (not other listed ones: a version whose
+					// retirement failed earlier may stay listed after a vacuum reclaimed its nodes; opens skip it)
+					snapF := s.st.Snapshot()
+					own, _ := s.conn.Scalar("select s3db_version('" + s.t + "')")
+					for _, n := range parseVersionList(own) {
+						if v := walk.Walk(snapF, base, n); len(v.Problems) > 0 {
+							var evs []string
+							for _, ev := range s.st.Log() {
+								if ev.Client == "subj" && (ev.Res != "ok" || ev.Op != fs3.OpGet) {
+									evs = append(evs, fmt.Sprintf("%s %s %s", ev.Op, shortKey(ev.Key), ev.Res))
+								}
+							}
+							if len(evs) > 40 {
+								evs = evs[len(evs)-40:]
+							}
+							desc["subject_requests_tail"] = evs
+							fail("follow-up-commit-incomplete:"+m.name, fmt.Sprintf("%s: the version published by a follow-up write is incomplete: %s", where, v.Problems[0]))
+							break
+						}
+					}
+				}
+				closeSubject(s)
+				continue
 			}
 			// same connection: usable again
 			if c.Res.Status != "violated" && r.Intn(4) == 0 && !strings.HasPrefix(target, "open") {
